@@ -45,14 +45,19 @@ def byteArith (op : Op) (a b : Nat) : Expect :=
   | .mod => if b = 0 then .error else .value (wrap8 (a % b))
   | _ => .any
 
-def floatArith (op : Op) (a b : Float) : Expect :=
+/-- the IEEE primitive on two doubles; `zero` says whether the *divisor as written* is zero
+(`/ 0` and `% 0` are runtime errors) -/
+def floatArithZ (op : Op) (a b : Float) (zero : Bool) : Expect :=
   match op with
   | .add => .value (.float (a + b))
   | .sub => .value (.float (a - b))
   | .mul => .value (.float (a * b))
-  | .div => if b == 0.0 then .error else .value (.float (a / b))
-  | .mod => if b == 0.0 then .error else .value (.float (fmod a b))
+  | .div => if zero then .error else .value (.float (a / b))
+  | .mod => if zero then .error else .value (.float (fmod a b))
   | _ => .any
+
+/-- a double divisor is zero when it compares equal to `0.0` (both signs) -/
+def floatArith (op : Op) (a b : Float) : Expect := floatArithZ op a b (b == 0.0)
 
 def isArith : Op → Bool
   | .add | .sub | .mul | .div | .mod => true
@@ -162,7 +167,8 @@ def binary (op : Op) (l r : Val) : Expect :=
   -- any float operand: IEEE double arithmetic on the converted operands
   | .float a, .float b => if isArith op then floatArith op a b else if isRel op then relFloat op a b else .error
   | .int a, .float b => if isArith op then floatArith op a.toFloat b else if isRel op then relFloat op a.toFloat b else .error
-  | .float a, .int b => if isArith op then floatArith op a b.toFloat else if isRel op then relFloat op a b.toFloat else .error
+  -- an integer divisor is zero when the integer is (the statement's "division or modulo by zero")
+  | .float a, .int b => if isArith op then floatArithZ op a b.toFloat (decide (b.toInt = 0)) else if isRel op then relFloat op a b.toFloat else .error
   | .float a, .byte b => if isArith op then floatArith op a b.toFloat else if isRel op then .any else .error
   | .byte a, .float b => if isArith op then floatArith op a.toFloat b else if isRel op then .any else .error
   -- strings and chars
